@@ -15,8 +15,6 @@ from harness.props.C03_util import RSSI, TS
 PID = "C03"
 K_PREAMBLE = "unifying.preamble-forced-aa"
 K_PHYRAW = "phy.send_raw-drops-packet-bytes"
-K_NONE = "%s.metadata-item-none-raises"       # % domain
-K_ENUM = "phy.enum-out-of-range-raises"
 
 
 def H(b):
@@ -578,9 +576,7 @@ class Oracle:
                 self.count("m2p2m:scapy-noncanonical-pdu")
             wf = False
         if not wf:
-            f = m0["f"]
-            enum_bad = cls.startswith("phy.") and cls.endswith("@2") and not (0 <= f.get("endian", 0) <= 1 and 0 <= f.get("modulation", 0) <= 7)
-            self.no_raise(case, res, key=K_ENUM if enum_bad else None)
+            self.no_raise(case, res)
             self.count("m2p2m:outside-premise")
             return
         p = ok(res.get("p", {}))
@@ -620,9 +616,7 @@ class Oracle:
             self.count("p2m2p:input-packet-not-buildable")
             return
         if kind == "mdnone":
-            if raised(res):
-                self.no_raise(case, res, key=K_NONE % case["dom"])
-            elif ok(res.get("m", {})) is not None:
+            if self.no_raise(case, res) and ok(res.get("m", {})) is not None:
                 self.viol("%s.from_packet built a message from a packet whose mandatory metadata is missing" % cls, case, res)
             return
         if kind == "unrepresentable":
@@ -677,9 +671,7 @@ class Oracle:
             self.count("convert:input-packet-not-buildable")
             return
         if kind == "mdnone":
-            if raised(res):
-                self.no_raise(case, res, key=K_NONE % case["dom"])
-            elif ok(res.get("m", {})) is not None:
+            if self.no_raise(case, res) and ok(res.get("m", {})) is not None:
                 self.viol("convert_packet built a message from a packet whose mandatory metadata is missing", case, res)
             return
         if kind == "unrepresentable":
@@ -819,10 +811,9 @@ BRANCHES = ["ble_extract:data", "ble_extract:ctrl", "ble_extract:adv", "ble_extr
             "ble_raw_to:sub-raw", "ble_adv_from:class-found", "ble_adv_from:no-class", "ble_adv_to:unknown-type", "ble_adv_to:bad-address",
             "d15_raw_to:Dot15d4FCS", "d15_raw_to:fallback-Dot15d4Raw", "d15_send_raw_from:fcs-top", "d15_send_raw_from:dot15d4-top",
             "d15_send_raw_from:raw-top", "d15_send_from:raw-top", "d15_raw_from:raw-top", "esb_convert:retr-missing", "esb_convert:retr-none",
-            "esb_convert:retr-value", "esb_rx_from:preamble-forced", "to_packet:struct-error-none", "to_packet:raise", "from_packet:TypeError",
-            "from_packet:AttributeError", "from_packet:ValueError", "from_packet:none", "hub_convert:unknown-metadata-class",
+            "esb_convert:retr-value", "esb_rx_from:preamble-forced", "to_packet:struct-error-none", "from_packet:none", "from_packet:none-metadata-item", "to_packet:none-enum-out-of-range", "hub_convert:unknown-metadata-class",
             "hub_convert:raw", "hub_convert:non-raw", "optional-item-absent", "optional-item-present", "rssi-negative", "timestamp>=2^32",
-            "timestamp>=2^63", "phy_v2:enum-out-of-range"]
+            "timestamp>=2^63"]
 
 
 def branch_hits(c, r):
@@ -847,12 +838,10 @@ def branch_hits(c, r):
                 h.add("ble_adv_to:unknown-type")
             elif len(U.hexval(f["bd_address"])) != 6:
                 h.add("ble_adv_to:bad-address")
-        if "none" in r.get("p", {}) and f and cls not in ("ble.adv_pdu",):
+        if "none" in r.get("p", {}) and f and cls not in ("ble.adv_pdu",) and not cls.startswith("phy."):
             h.add("to_packet:struct-error-none")
-        if "exc" in r.get("p", {}):
-            h.add("to_packet:raise")
-            if cls.startswith("phy."):
-                h.add("phy_v2:enum-out-of-range")
+        if "none" in r.get("p", {}) and cls.startswith("phy."):
+            h.add("to_packet:none-enum-out-of-range")
         for k, v in f.items():
             if k in ("rssi", "timestamp", "relative_timestamp", "crc_validity", "fcs_validity", "lqi", "address") and cls != "ble.adv_pdu":
                 h.add("optional-item-absent" if v is None else "optional-item-present")
@@ -865,10 +854,8 @@ def branch_hits(c, r):
                     h.add("timestamp>=2^63")
     stage_m = r.get("m") if op != "m2p2m" else r.get("m1")
     if isinstance(stage_m, dict):
-        if "exc" in stage_m and stage_m["exc"] in ("TypeError", "AttributeError", "ValueError"):
-            h.add("from_packet:" + stage_m["exc"])
         if "none" in stage_m:
-            h.add("from_packet:none")
+            h.add("from_packet:none-metadata-item" if c["kind"] == "mdnone" else "from_packet:none")
     if cls == "ble.adv_pdu" and op == "p2m2p" and lay and lay[0] == "BTLE_ADV":
         h.add("ble_adv_from:class-found" if m else "ble_adv_from:no-class")
     if op == "convert" and p_in:
